@@ -525,6 +525,46 @@ def bind_call(program, fn, fi, args, kw, skip):
 
 
 PROGRAM = None      # set by FuncLower; lets norm() canonicalise calls of repository functions / classes
+REF_PARAMS = {}     # qualname -> parameter names of its reference (set by Contracts): a call that passes another parameter
+                    # is related to the reference's call through the callee's own body (see _call_with_new_parameter)
+
+
+def _call_with_new_parameter(fi, selfterm, kwargs):
+    """f(.., new=a) where `new` is a parameter f's reference does not have: inline f's (single-expression) body with the actual
+    arguments, then fold every occurrence of the body-with-`new`-at-its-default back into the plain call f(..) - so that
+    `leafs(as_ids=True)` becomes `map(id, leafs())` when that is what the body says. None when this does not apply."""
+    ref = REF_PARAMS.get(fi.qualname)
+    if ref is None:
+        return None
+    a = fi.node.args
+    own = [x.arg for x in a.posonlyargs + a.args + a.kwonlyargs]
+    new_ = set(own[len(ref):])                      # (the reference's parameters correspond to the first ones by position)
+    extras = [k for k, _ in kwargs if k in new_]
+    if not extras:
+        return None
+    allpos = a.posonlyargs + a.args
+    dnodes = dict(zip([x.arg for x in allpos[len(allpos) - len(a.defaults):]], a.defaults))
+    dnodes.update({x.arg: d for x, d in zip(a.kwonlyargs, a.kw_defaults) if d is not None})
+    if any(k not in dnodes or not isinstance(dnodes[k], ast.Constant) for k in extras):
+        return None
+    try:
+        fl = FuncLower(PROGRAM, fi)
+        body = _expr_of_block(norm(fl.term()))
+    except Exception:
+        body = None
+    if body is None:
+        return None
+    env = dict(kwargs)
+    if fl.params and fi.cls is not None and selfterm is not None:
+        env[fl.params[0]] = selfterm
+    if any(p_ not in env for p_ in fl.params if p_ not in dnodes):
+        return None
+    for p_ in fl.params:
+        if p_ not in env and p_ in dnodes and isinstance(dnodes[p_], ast.Constant):
+            env[p_] = C(dnodes[p_].value)
+    actual = norm(subst(body, env))
+    base = norm(subst(body, dict(env, **{k: C(dnodes[k].value) for k in extras})))
+    return actual, base
 
 
 def bind_glob(fn, args, kw):
@@ -2310,6 +2350,20 @@ def norm_call(fn, args, kw):
                     return norm(subst(fn[2], bind))
     if fn[0] == 'attr' and fn[2] == 'get' and len(args) == 2 and args[1] == NONE and not kw:
         return call(fn, [args[0]])                     # d.get(k, None) == d.get(k)
+    if fn[0] == 'attr' and kw and PROGRAM is not None and REF_PARAMS:
+        # a method call that passes a parameter the method's reference does not have
+        cands = [f for f in PROGRAM.functions.values() if f.cls is not None and f.name == fn[2] and f.qualname in REF_PARAMS]
+        if len(cands) == 1 and not args:
+            r = _call_with_new_parameter(cands[0], fn[1], list(kw))
+            if r is not None:
+                actual, base = r
+                a_ = cands[0].node.args
+                own_ = [x.arg for x in a_.posonlyargs + a_.args + a_.kwonlyargs]
+                keep_ = set(own_[:len(REF_PARAMS[cands[0].qualname])])
+                plain = call(fn, [], [(k_, v_) for k_, v_ in kw if k_ in keep_])
+                folded = replace(actual, lambda x: plain if x == base else None)
+                if folded != actual or actual == base:
+                    return plain if actual == base else folded
     if fn[0] == 'attr':
         o, m = fn[1], fn[2]
         # X.ravel().tolist() is X.flatten().tolist() (the view / copy difference does not survive tolist())
